@@ -54,3 +54,16 @@ EDITS += [
     {'id': 'pair-from-first', 'expect': 'fire', 'rule': 'C12.O2', 'file': 'spowtd/regrid.py', 'old': '        start, stop = (y_int[i], y_int[i + 1])', 'new': '        start, stop = (y_int[0], y_int[i + 1])'},
     {'id': 'pair-two-statements', 'expect': 'silent', 'file': 'spowtd/regrid.py', 'old': '        start, stop = (y_int[i], y_int[i + 1])', 'new': '        start = y_int[i]\n        stop = y_int[i + 1]'},
 ]
+
+EDITS += [
+    {"id": "float-arange-levels", "expect": "fire", "rule": "C12.O2", "file": R,
+     "old": "            targets = list(range(start, stop))", "new": "            targets = [int(round(v / y_step)) for v in np.arange(start * y_step, stop * y_step, y_step)]"},
+    # correct rewrites outside the recognised construction: no alarm (the honest answer is "cannot decide")
+    {"id": "two-ceil-arrays", "expect": "no-alarm",
+     "edits": [
+         {"file": R, "old": "    y_int = np.array(np.ceil(Y), dtype=np.int64)", "new": "    lo_int = np.array(np.ceil(Y[:-1]), dtype=np.int64)\n    hi_int = np.array(np.ceil(Y[1:]), dtype=np.int64)\n    y_int = lo_int"},
+         {"file": R, "old": "        start, stop = (y_int[i], y_int[i + 1])", "new": "        start, stop = (lo_int[i], hi_int[i])"},
+     ]},
+    {"id": "unit-step-arange", "expect": "no-alarm", "file": R,
+     "old": "            targets = list(range(start, stop))", "new": "            targets = [int(v) for v in np.arange(start, stop, 1)]"},
+]
